@@ -11,6 +11,7 @@ import Driver.Kv
 import Driver.LockTrace
 import Driver.Zip
 import Driver.KvLin
+import Driver.Monitors
 
 def main (args : List String) : IO UInt32 := do
   match args with
@@ -26,4 +27,5 @@ def main (args : List String) : IO UInt32 := do
   | ["locktrace"] => Drv.run DrvLockTrace.comp
   | ["zip"] => Drv.run DrvZip.comp
   | ["kvlin"] => Drv.run DrvKvLin.comp
+  | ["monitors"] => Drv.run DrvMonitors.comp
   | _ => IO.eprintln "usage: driver <component>"; return 2
